@@ -211,6 +211,7 @@ func newWorld(id string, pool int, withNet bool) *world {
 		jr.Method{Name: "m2", Params: params, Handler: w.m2},
 		jr.Method{Name: "sub", Params: params, Handler: w.sub},
 		jr.Method{Name: "unsub", Params: params, Handler: w.unsub},
+		jr.Method{Name: "boom", Params: params, Handler: w.boom},
 	)
 	if err != nil {
 		panic(err)
@@ -312,6 +313,25 @@ func (w *world) m2(ctx context.Context, a int, b string) (any, *jr.Error) {
 		return nil, &jr.Error{Code: codeApp, Message: "app", Data: b}
 	}
 	return map[string]any{"m": "m2", "a": a, "b": b}, nil
+}
+
+// unserialisable is a handler result encoding/json cannot marshal; the error text is n bytes long.
+type unserialisable struct{ n int }
+
+func (u unserialisable) MarshalJSON() ([]byte, error) {
+	return nil, errors.New(strings.Repeat("e", u.n))
+}
+
+const longReason = 200 // error text beyond what a close frame's reason can carry
+
+func (w *world) boom(ctx context.Context, a int, b string) (any, *jr.Error) {
+	if e := w.enter(ctx, "boom", a, b)(); e != nil {
+		return nil, e
+	}
+	if a == 2 {
+		return unserialisable{longReason}, nil
+	}
+	return unserialisable{10}, nil
 }
 
 func subKey(connTag string, key int) string { return connTag + "/" + strconv.Itoa(key) }
@@ -611,7 +631,7 @@ func (r *renderer) slotB(tok, tag string) (string, string) {
 	return "5", ""
 }
 
-var methodName = map[string]string{"m2": "m2", "sub": "sub", "unsub": "unsub", "unknown": "nope"}
+var methodName = map[string]string{"m2": "m2", "sub": "sub", "unsub": "unsub", "boom": "boom", "unknown": "nope"}
 
 func (r *renderer) entry(e absEntry, tag string, f, i int) (string, concrete) {
 	c := concrete{method: e.Meth}
@@ -974,6 +994,12 @@ func (r *run) diverge(key, what string, exp, obs any) {
 	r.g.out.Diverge(vh.Divergence{Key: key, What: what, Input: r.input(), Step: r.step, Expected: exp, Observed: obs})
 }
 
+// finding: a keyed deviation that does not invalidate the rest of the behaviour (and does not count
+// towards the limit after which the replay gives up)
+func (r *run) finding(key, what string, exp, obs any) {
+	r.g.out.Diverge(vh.Divergence{Key: key, What: what, Input: r.input(), Step: r.step, Expected: exp, Observed: obs})
+}
+
 func (r *run) timeout(what string) {
 	r.failed = true
 	r.g.timeouts.Add(1)
@@ -1101,9 +1127,9 @@ func (r *run) checkResp(data []byte, exp wireFrame) {
 			if fr.Es[0].K == "scalar" {
 				k = "scalar"
 			}
-			r.g.out.Diverge(vh.Divergence{Key: "jsonrpc:nonrequest-parse-error:" + k,
-				What:  "websocket transport: a syntactically valid JSON text that is not a Request object is answered -32700 instead of -32600",
-				Input: r.input(), Step: r.step, Expected: -32600, Observed: short(data)})
+			r.finding("jsonrpc:nonrequest-parse-error:"+k,
+				"websocket transport: a syntactically valid JSON text that is not a Request object is answered -32700 instead of -32600",
+				-32600, short(data))
 		}
 		left = append(left[:found], left[found+1:]...)
 	}
@@ -1273,6 +1299,41 @@ func (r *run) doStep(s mstep) {
 		}
 		r.wsOut[s.X] = data
 		r.checkResp(data, s.Put[0])
+	case "RespUnser":
+		// the promise, whatever the switch of the model says: a connection the server ends because it cannot
+		// serialise an answer is closed with StatusInternalError
+		if r.closed {
+			r.waitServed("unserialisable answer")
+			return
+		}
+		long := r.conc[s.X-1][0].a == 2
+		for {
+			f, ok := r.cl.next(stepWait)
+			if !ok {
+				r.timeout("close after an unserialisable answer")
+				return
+			}
+			if f.err == nil {
+				r.diverge("ws-stream:unexpected-frame-before-close", "a frame arrived although the answer cannot be serialised", "close 1011", short(f.data))
+				return
+			}
+			if st := websocket.CloseStatus(f.err); st != websocket.StatusInternalError {
+				if long && st == -1 {
+					r.finding("ws-close:no-close-frame:reason-longer-than-123-bytes",
+						"ServeHTTP ends the connection for an internal error whose text is longer than 123 bytes: the reason is cut at "+
+							"125 bytes, coder/websocket refuses to build the close frame and the client sees the connection drop without status",
+						"close 1011", f.err.Error())
+				} else {
+					r.diverge(fmt.Sprintf("ws-close:status:%d-instead-of-%d", int(st), int(websocket.StatusInternalError)),
+						"internal error: the connection ended with another status", 1011, f.err.Error())
+					return
+				}
+			} else if long {
+				r.g.out.Count("long_close_reason_delivered", 1)
+			}
+			break
+		}
+		r.waitServed("unserialisable answer")
 	case "ReadBig", "TailClose":
 		if !r.closed {
 			r.expectEnd("message longer than ReadLimit", int(websocket.StatusMessageTooBig), map[bool]int{true: s.X, false: 0}[s.A == "ReadBig"])
@@ -1508,7 +1569,7 @@ func (r *run) finish() {
 		}
 		skip := false
 		for _, e := range fr.Es {
-			if e.Meth == "sub" || e.Meth == "unsub" {
+			if e.Meth == "sub" || e.Meth == "unsub" || e.Meth == "boom" {
 				skip = true // their answer depends on the connection by design
 			}
 		}
@@ -1761,7 +1822,11 @@ func (sc *stressConn) run(in *input, rng *rand.Rand) {
 			i := nextID()
 			send(fmt.Sprintf(`{"jsonrpc":"2.0","method":"nope","id":%s}`, i), owed{ids: map[string]string{i: "-32601"}})
 		case 2:
-			if !func() bool { wctx, cancel := context.WithTimeout(ctx, stepWait); defer cancel(); return c.Write(wctx, websocket.MessageText, []byte(`{"jsonrpc":"2.0","method":"m2","params":[7,"n"]}`)) == nil }() {
+			if !func() bool {
+				wctx, cancel := context.WithTimeout(ctx, stepWait)
+				defer cancel()
+				return c.Write(wctx, websocket.MessageText, []byte(`{"jsonrpc":"2.0","method":"m2","params":[7,"n"]}`)) == nil
+			}() {
 				break
 			}
 		case 3:
@@ -2155,6 +2220,51 @@ func (d *directed) readLimitBoundary(round int) {
 	}
 }
 
+// closeReason: the server cannot serialise an answer -> StatusInternalError, whatever the length of the error text.
+func (d *directed) closeReason(round int) {
+	for _, key := range []int{1, 2} {
+		w := newWorld(fmt.Sprintf("d5r%d", round), 2, true)
+		a, err := w.dial("A")
+		if err != nil {
+			d.timeout("dial")
+			w.close()
+			return
+		}
+		ok := d.exchange(a, `{"jsonrpc":"2.0","method":"sub","params":[1,"x"],"id":1}`, `"result":{"sub":1}`)
+		if ok {
+			_ = a.send([]byte(fmt.Sprintf(`{"jsonrpc":"2.0","method":"boom","params":[%d,"x"],"id":2}`, key)))
+			f, got := a.next(stepWait)
+			switch {
+			case !got:
+				d.timeout("close after an unserialisable answer")
+				ok = false
+			case f.err == nil:
+				d.diverge("ws-stream:unexpected-frame-before-close", "a frame arrived although the answer cannot be serialised", "close 1011", short(f.data))
+				ok = false
+			case websocket.CloseStatus(f.err) == websocket.StatusInternalError:
+				if key == 2 {
+					d.g.out.Count("long_close_reason_delivered", 1)
+				}
+			case key == 2 && websocket.CloseStatus(f.err) == -1:
+				d.g.out.Count("long_close_reason_dropped", 1)
+				d.diverge("ws-close:no-close-frame:reason-longer-than-123-bytes",
+					"ServeHTTP ends the connection for an internal error whose text is longer than 123 bytes: the reason is cut at "+
+						"125 bytes, coder/websocket refuses to build the close frame and the client sees the connection drop without status",
+					"close 1011", f.err.Error())
+				d.g.divs.Add(-1) // a keyed finding of its own; the other rounds still run
+			default:
+				d.diverge(fmt.Sprintf("ws-close:status:%d-instead-of-1011", int(websocket.CloseStatus(f.err))), "internal error: "+f.err.Error(), 1011, f.err.Error())
+				ok = false
+			}
+		}
+		if ok && d.afterClose(w, a, "internal error") {
+			d.g.out.Done(1, 3)
+		}
+		a.kill()
+		w.close()
+	}
+}
+
 func TestWsDirected(t *testing.T) {
 	if !vh.Enabled() {
 		t.Skip("driver only")
@@ -2171,5 +2281,6 @@ func TestWsDirected(t *testing.T) {
 		d.abruptClose(round, round%2 == 0)
 		d.crossConnection(round)
 		d.readLimitBoundary(round)
+		d.closeReason(round)
 	}
 }
